@@ -244,13 +244,17 @@ def actuator_names(section):
 
 # ---------------------------------------------------------------------------------------------- tree models
 
+J_ACTFRC = {"hinge": 'actuatorfrcrange="-2 1.5" actuatorgravcomp="true"', "slide": 'actuatorfrcrange="-3 3"', "ball": "", "free": ""}
+
+
 def tree_model(name, parents, joints, opt, *, smooth=True, limits=False, friction=False, equality=None,
                tendon=None, actuators=1, sensors=1, gravcomp=False, camera=False, mocap=False, spatial=False,
-               tendon_armature=False, disable_actuation=False):
+               tendon_armature=False, actfrc=False, post=None):
     """One kinematic-forest model with feature bundles; returns the alphabet item (dict)."""
     n = len(parents)
     names = joint_names(joints)
-    ja = merge_attr(J_SMOOTH if smooth else {}, J_LIMIT if limits else {}, J_FRICTION if friction else {})
+    ja = merge_attr(J_SMOOTH if smooth else {}, J_LIMIT if limits else {}, J_FRICTION if friction else {},
+                    J_ACTFRC if actfrc else {})
     battr = [('gravcomp="%s"' % ("0.7" if i == 0 else "1.3")) if gravcomp else "" for i in range(n)]
     extra = [""] * n
     if camera:
@@ -313,6 +317,10 @@ def tree_model(name, parents, joints, opt, *, smooth=True, limits=False, frictio
             sections = sections.replace("  </sensor>", '    <camprojection site="w0" camera="c0"/>\n'
                                         '    <framepos objtype="camera" objname="c3"/>\n  </sensor>')
     xml = mjcf(world, opt=opt, sections=sections, world_extra=world_extra)
+    for a_, b_ in (post or ()):
+        if a_ not in xml:
+            raise ValueError("post-edit anchor %r not in model %s" % (a_, name))
+        xml = xml.replace(a_, b_, 1)
     return dict(name=name, xml=xml, kind="tree", parents=tuple(parents), joints=tuple(joints),
                 constrained=bool(limits or friction or equality))
 
@@ -320,7 +328,7 @@ def tree_model(name, parents, joints, opt, *, smooth=True, limits=False, frictio
 # ---------------------------------------------------------------------------------------------- contact scenes
 
 def contact_model(name, opt, pairs, *, condim=3, margin=0.0, gap=0.0, friction="0.9 0.02 0.003", solref=None,
-                  priority=False, explicit_pair=False, sensors=True, exclude=False):
+                  priority=False, explicit_pair=False, sensors=True, exclude=False, floor_attr="", geom_attr=""):
     """Free bodies resting on / slightly above a plane and/or touching each other.
 
     pairs: list of (geomA, geomB) with geomA == 'plane' for body-on-plane."""
@@ -333,8 +341,10 @@ def contact_model(name, opt, pairs, *, condim=3, margin=0.0, gap=0.0, friction="
     if solref:
         gcommon += ' solref="%s"' % solref
     if has_plane:
-        world_extra += '    <geom name="floor" type="plane" size="2 2 0.1" pos="0 0 0" %s%s/>\n' % (
-            gcommon.replace('friction="%s"' % friction, 'friction="0.6 0.01 0.002"'), ' priority="1"' if priority else "")
+        world_extra += '    <geom name="floor" type="plane" size="2 2 0.1" pos="0 0 0" %s%s %s/>\n' % (
+            gcommon.replace('friction="%s"' % friction, 'friction="0.6 0.01 0.002"'), ' priority="1"' if priority else "",
+            floor_attr)
+    gcommon += " " + geom_attr
     # resting heights: lowest point of the (tilted) geom is about 5 mm below the plane
     REST = {"sphere": 0.065, "capsule": 0.035, "box": 0.045, "ellipsoid": 0.045, "cylinder": 0.075}
     TILT = {"sphere": "1 0 0 0", "capsule": "0.7071 0 0.7071 0", "box": "1 0 0 0", "ellipsoid": "1 0 0 0",
@@ -380,17 +390,19 @@ CONES = ["pyramidal", "elliptic"]
 
 
 def option_cover(k, **kw):
-    """k-th element of a covering rotation over integrator x solver x cone x jacobian."""
+    """k-th element of the full product integrator x solver x cone x jacobian (24 combinations, k taken mod 24).
+    Families walk through it with a stride coprime to 24, so every family sees every value of every factor."""
+    k = k % 24
     integ = INTEGRATORS[k % 3]
-    solver = SOLVERS[(k // 3 + k) % 2]
-    cone = CONES[(k // 2) % 2]
-    jac = ["dense", "sparse"][(k // 4 + k) % 2]
+    solver = SOLVERS[(k // 3) % 2]
+    cone = CONES[(k // 6) % 2]
+    jac = ["dense", "sparse"][(k // 12) % 2]
     return option(integrator=integ, solver=solver, cone=cone, jacobian=jac, **kw), (integ, solver, cone, jac)
 
 
+SINGLE_TREES = [((-1,), ("hinge",)), ((-1,), ("slide",)), ((-1,), ("ball",)), ((-1,), ("free",)),
+                ((-1,), ("hinge2",)), ((-1,), ("slidehinge",))]
 QUICK_TREES = [
-    ((-1,), ("hinge",)), ((-1,), ("slide",)), ((-1,), ("ball",)), ((-1,), ("free",)),
-    ((-1,), ("hinge2",)), ((-1,), ("slidehinge",)),
     ((-1, 0), ("hinge", "hinge")), ((-1, 0), ("free", "hinge")), ((-1, 0), ("ball", "slide")),
     ((-1, 0), ("slidehinge", "ball")), ((-1, -1), ("hinge", "slide")), ((-1, -1), ("free", "ball")),
     ((-1, 0), ("none", "hinge")), ((-1, 0), ("slide", "hinge2")),
